@@ -671,3 +671,17 @@ fn structure_tail_offset(_b: &[u8], _s: &WStruct) -> R<usize> {
     // spans recorded by `read_structure` are absolute offsets in the buffer it was read from
     Ok(0)
 }
+
+/// Non-canonical LEB128: `n` followed by `pad` redundant continuation bytes (0x80 ... 0x00).
+pub fn leb_encode_padded(n: u64, pad: u8) -> Vec<u8> {
+    let mut out = leb_encode(n);
+    if pad > 0 {
+        let last = out.len() - 1;
+        out[last] |= 0x80;
+        for _ in 1..pad {
+            out.push(0x80);
+        }
+        out.push(0x00);
+    }
+    out
+}
